@@ -59,7 +59,7 @@ UNPROVED = [
     "cross-nesting named by the quantifier (macros inside generics inside polymorphic functions): the generator nests for/if/macros inside templates and probes generics, polymorphic functions and hygiene separately, not inside one another",
     "memoize's real argument match (== with Type.__eq, shallow_compare_nomt on tables) being an equivalence: discharged only for the modelled match of generics (types by identity, values, nil: C16_generic_same_type); table arguments are covered by C07's memo stream",
     "that same_comptime_value separates exactly the compile-time values code can tell apart: SCRAPED (both branches of poly_args_matches call it; its 1/a == 1/b line) and TESTED by the polyc stream; C16_polyeval_signed_zero is only a tripwire on the scraped flag (the model's value ids are abstract: with the flag every raw id is its own class, for the first two calls of a fresh function); values with __eq metamethods are not covered",
-    "NaN compile-time arguments: same_comptime_value answers false for NaN vs NaN, so every call with NaN creates a new specialisation (the reuse clause of the statement fails; behaviour is right): open known finding with a validated repair (harness/C16/proposed_repairs/01-poly-nan.diff)",
+    "NaN compile-time arguments: since 94c863e same_comptime_value treats two NaNs as one value (SCRAPED: the `a ~= a and b ~= b` line; TESTED: NaN witnesses in the polyc stream, one specialisation); NaN is not a flag of the Coq model (the check gives NaN calls one class iff the line is there), so there is no theorem about it",
     "that each poly evaluation yields exactly one emitted C function: read from the emitted C in the poly stream only",
     "the hygiene model has one scope chain and one statement list: that hygienize switches context.scope / statnodes to the definition's (a generic called from another block than its definition) is assumed; covered by the hygiene_nested stream only",
     "statements generated into one place (between two source statements) by different hygienized functions run in generation order: checked on every generated nesting against the implementation and against the cursor model, not a theorem (C16_hygienize_own_order is about one function's own statements)",
@@ -67,7 +67,7 @@ UNPROVED = [
     "aster.value, inject_value, concepts: through the generated programs only",
 ]
 MANIFEST_ENTRY = {
-    "text": "proof, partial (one open finding: NaN comptime arguments are never reused): theorems (on hand-written models tied by probe programs) for 'same arguments -> same type' (memoize, premises discharged for the modelled match), 'same argument types -> one specialisation, different -> distinct' (eval_poly), 'free names resolve where the generic was defined, nothing leaks' (checkpoints; restoring pop since b8843bb) and 'injected statements keep their order under nesting' (cursors, 6cc3727); the headline clause 'templates behave like their hand expansion' rests on differential compilation of generated templates only (definitional theorems about the specification expander)",
+    "text": "proof, partial: theorems (on hand-written models tied by probe programs) for 'same arguments -> same type' (memoize, premises discharged for the modelled match), 'same argument types -> one specialisation, different -> distinct' (eval_poly), 'free names resolve where the generic was defined, nothing leaks' (checkpoints; restoring pop since b8843bb) and 'injected statements keep their order under nesting' (cursors, 6cc3727); the headline clause 'templates behave like their hand expansion' rests on differential compilation of generated templates only (definitional theorems about the specification expander)",
     "note": "trusted: coqc, regex/structural scrape of poly_args_matches, eval_poly, pop/set/push_checkpoint, hygienize, generalize; harness/C16/gen.py (template and probe generators, renderers, C canonicaliser); the real compiler + gcc; preprocessor.lua unmodelled",
     "technique": "Coq models of memoize / eval_poly / scope checkpoints / statement cursors + template-vs-expansion and probe programs through the real compiler",
 }
